@@ -2,10 +2,11 @@
    Only statements, [exact] and [Print Assumptions] live here.
    [pf] is the str::parse::<f64> oracle and [un] the char::is_numeric oracle of
    the model: every theorem holds for all of them. *)
-From Coq Require Import ZArith NArith List Bool.
-From Flocq Require Import IEEE754.Binary IEEE754.Bits.
+From Coq Require Import ZArith NArith List Bool Reals.
+From Flocq Require Import Core IEEE754.Binary IEEE754.Bits.
 From GV Require Import Base.Result Model.Num Model.Literals Spec.LitDenote
-  Proofs.C14.Digits Proofs.C14.Number Proofs.C14.CharList Proofs.C14.ByteList Proofs.C14.Stores.
+  Proofs.C14.Digits Proofs.C14.Number Proofs.C14.CharList Proofs.C14.ByteList Proofs.C14.Stores
+  Proofs.C14.DecFloat Proofs.C14.FloatLiteral.
 Import ListNotations.
 Local Open Scope N_scope.
 
@@ -53,6 +54,31 @@ Theorem C14_decimal_separators : forall pf n ds', 0 < n -> n <= i32_max_N ->
   parse_simple_number pf ds' = Ok (Int (Z.of_N n)).
 Proof. exact decimal_roundtrip. Qed.
 Print Assumptions C14_decimal_separators.
+
+(* decimal fractions (partial: digits '.' digits without separators or
+   exponent; [parse_f64] is the model of str::parse::<f64>, tied to the Rust by
+   correspondence): the literal is read as mantissa = all its digits, exponent
+   = minus the number of fraction digits ... *)
+Theorem C14_float_literal : forall ip fp,
+  valid_digits 10 ip = true -> forallb (is_digit_of 10) fp = true ->
+  parse_simple_number parse_f64 (ip ++ 46 :: fp) =
+  Ok (Flt (f64_of_decimal false (radix_value 10 (ip ++ fp)) (- Z.of_nat (length fp)))).
+Proof. exact float_literal_value. Qed.
+Print Assumptions C14_float_literal.
+
+(* ... and the conversion is the IEEE-754 round-to-nearest-even of the decimal
+   number m * 10^e (an infinity when that rounding overflows), outside the two
+   exponent ranges the model decides without computing the power *)
+Theorem C14_float_rounding : forall neg p e10,
+  (e10 < 310)%Z ->
+  ~ (10000 * (Z.log2 (Zpos p) + 1) + 33219 * e10 <= -10750000)%Z ->
+  let x := dec_real neg p e10 in
+  if Rlt_bool (Rabs (rnd64 x)) (bpow radix2 1024) then
+    Binary.B2R 53 1024 (f64_of_decimal neg (Npos p) e10) = rnd64 x /\
+    Binary.is_finite 53 1024 (f64_of_decimal neg (Npos p) e10) = true
+  else f64_of_decimal neg (Npos p) e10 = Binary.B754_infinity 53 1024 neg.
+Proof. exact f64_of_decimal_correct. Qed.
+Print Assumptions C14_float_rounding.
 
 (* a char-list literal evaluates to exactly the characters between its quotes
    after escape processing: for every quote count q, every list of items
@@ -131,6 +157,13 @@ Example C14_ex_numbers : forall pf,
   parse_simple_number pf [48; 50; 95; 49; 50] = Err err_parse /\                     (* 02_12 *)
   parse_simple_number pf [49; 95; 48; 48; 48] = Ok (Int 1000).                       (* 1_000 *)
 Proof. intros pf. vm_compute. repeat split; reflexivity. Qed.
+
+Definition float_bits (r : res num) : Z := match r with Ok (Flt f) => bits_of_b64 f | _ => (-1)%Z end.
+Example C14_ex_float :
+  float_bits (parse_simple_number parse_f64 [48; 46; 49]) = 0x3fb999999999999a%Z /\                    (* 0.1 *)
+  float_bits (parse_simple_number parse_f64 [48; 46; 49; 50; 95; 53]) = 0x3fc0000000000000%Z /\        (* 0.12_5 *)
+  float_bits (parse_simple_number parse_f64 [50; 49; 52; 55; 52; 56; 51; 54; 52; 56]) = 0x41e0000000000000%Z.  (* 2147483648 *)
+Proof. vm_compute. repeat split; reflexivity. Qed.
 
 Example C14_ex_text : forall pf un,
   parse_char_list pf [34; 233; 34] = Ok [233] /\                                     (* "e-acute" *)
